@@ -1,1 +1,184 @@
-From G02 Require Import Check.
+(* C02 — the pattern flush writer as an automaton over a list of writes.
+   Facts about the source (which checks the Write method performs, which
+   patterns are configured) are hypotheses here; Obligations.v discharges them
+   against the regenerated Tables.v. *)
+From G02 Require Import RespFraming.
+Open Scope N_scope.
+
+(* an occurrence of one of the patterns in the stream  pre ++ w  whose last byte lies in w *)
+Definition occurs_ending_in (pats : list pat) (pre w : str) : Prop :=
+  exists p a c, In p pats /\ pre ++ w = a ++ [fst p; snd p] ++ c /\ (length c < length w)%nat.
+
+Lemma has_pat_spec p w : has_pat p w = true <-> exists a c, w = a ++ [fst p; snd p] ++ c.
+Proof.
+  induction w as [|x w IH]; simpl.
+  - split; [discriminate|]. intros (a & c & H). destruct a; discriminate.
+  - rewrite orb_true_iff, IH. split.
+    + intros [H | (a & c & ->)].
+      * destruct w as [|y w']; [discriminate|].
+        apply andb_true_iff in H as [H1 H2]. apply N.eqb_eq in H1, H2. subst.
+        exists [], w'. reflexivity.
+      * exists (x :: a), c. reflexivity.
+    + intros (a & c & H). destruct a as [|x' a].
+      * simpl in H. inversion H; subst. left. rewrite !N.eqb_refl. reflexivity.
+      * simpl in H. inversion H; subst. right. exists a, c. reflexivity.
+Qed.
+
+Lemma last_byte_app_nonempty pre w : w <> [] -> last_byte (pre ++ w) = last_byte w.
+Proof.
+  intro H. destruct (exists_last H) as (w' & x & ->). unfold last_byte.
+  rewrite app_assoc, !last_last. reflexivity.
+Qed.
+
+Lemma last_byte_snoc pre x : last_byte (pre ++ [x]) = x.
+Proof. unfold last_byte. apply last_last. Qed.
+
+(* the state (w.last) matches the bytes written so far *)
+Definition state_of (pre : str) (lastb : N) : Prop :=
+  (pre = [] /\ lastb = 0) \/ (pre <> [] /\ lastb = last_byte pre).
+
+Section Flush.
+  Hypothesis Hstraddle : flush_straddle_check = true.
+  Hypothesis Hcontains : flush_contains_check = true.
+
+  Lemma flush_hit_iff pre lastb w p :
+    state_of pre lastb -> fst p <> 0 ->
+    flush_hit lastb w p = true <->
+    exists a c, pre ++ w = a ++ [fst p; snd p] ++ c /\ (length c < length w)%nat.
+  Proof.
+    intros Hst Hnz. unfold flush_hit. rewrite Hstraddle, Hcontains. simpl.
+    rewrite orb_true_iff, andb_true_iff, N.eqb_eq, has_pat_spec. split.
+    - intros [[Hl Hf] | (a & c & ->)].
+      + destruct w as [|y w']; [discriminate|]. simpl in Hf. apply N.eqb_eq in Hf. subst y.
+        destruct Hst as [[-> ->] | [Hne ->]]; [congruence|].
+        destruct (exists_last Hne) as (pre' & x & ->). rewrite last_byte_snoc in Hl. subst x.
+        exists pre', w'. split; [rewrite <- (app_assoc pre' [fst p]); reflexivity | simpl; lia].
+      + exists (pre ++ a), c. split; [rewrite <- (app_assoc pre a); reflexivity|].
+        rewrite !app_length. simpl. lia.
+    - intros (a & c & Heq & Hlen).
+      apply app_eq_app in Heq as (l & [[-> Hc] | [-> Hw]]).
+      + (* pre = a ++ l : the occurrence starts inside pre *)
+        destruct l as [|x l].
+        * right. exists [], c. simpl in Hc. symmetry. exact Hc.
+        * simpl in Hc. inversion Hc as [[Hx Hc']]. subst x.
+          destruct l as [|y l].
+          -- left. simpl in Hc'. destruct w as [|y w']; [simpl in Hlen; lia|].
+             inversion Hc'; subst. split; [|simpl; apply N.eqb_refl].
+             destruct Hst as [[He _] | [_ ->]]; [destruct a; discriminate|].
+             rewrite last_byte_snoc. reflexivity.
+          -- exfalso. simpl in Hc'. inversion Hc' as [[Hy Hc'']]. subst.
+             rewrite app_length in Hlen. lia.
+      + right. exists l, c. exact Hw.
+  Qed.
+
+  Lemma flush_step_iff pats pre lastb w :
+    state_of pre lastb -> Forall (fun p => fst p <> 0) pats ->
+    fst (flush_step pats lastb w) = true <-> occurs_ending_in pats pre w.
+  Proof.
+    intros Hst Hnz. unfold flush_step, occurs_ending_in. simpl. rewrite existsb_exists. split.
+    - intros (p & Hin & Hh). rewrite Forall_forall in Hnz.
+      apply (flush_hit_iff pre lastb w p Hst (Hnz p Hin)) in Hh as (a & c & H1 & H2).
+      exists p, a, c. auto.
+    - intros (p & a & c & Hin & H1 & H2). exists p. split; [exact Hin|]. rewrite Forall_forall in Hnz.
+      apply (flush_hit_iff pre lastb w p Hst (Hnz p Hin)). exists a, c. auto.
+  Qed.
+End Flush.
+
+Lemma state_step pats pre lastb w :
+  state_of pre lastb -> w <> [] -> state_of (pre ++ w) (snd (flush_step pats lastb w)).
+Proof.
+  intros _ Hne. right. split.
+  - destruct pre; [exact Hne | discriminate].
+  - unfold flush_step. simpl. destruct w as [|x w']; [congruence|].
+    symmetry. apply last_byte_app_nonempty. discriminate.
+Qed.
+
+(* the flag of write w after the writes ws1 *)
+Lemma flush_run_nth pats lastb ws1 w ws2 :
+  nth_error (flush_run pats lastb (ws1 ++ w :: ws2)) (length ws1) =
+  Some (fst (flush_step pats (fold_left (fun l x => snd (flush_step pats l x)) ws1 lastb) w)).
+Proof.
+  revert lastb. induction ws1 as [|x ws1 IH]; intro lastb; simpl.
+  - destruct (flush_step pats lastb w). reflexivity.
+  - destruct (flush_step pats lastb x) eqn:E. simpl.
+    replace n with (snd (flush_step pats lastb x)) by (rewrite E; reflexivity). apply IH.
+Qed.
+
+Lemma state_after pats pre lastb ws1 :
+  state_of pre lastb -> Forall (fun x => x <> []) ws1 ->
+  state_of (pre ++ concat ws1) (fold_left (fun l x => snd (flush_step pats l x)) ws1 lastb).
+Proof.
+  revert pre lastb. induction ws1 as [|x ws1 IH]; intros pre lastb Hst Hne; simpl.
+  - rewrite app_nil_r. exact Hst.
+  - inversion Hne; subst. rewrite app_assoc. apply IH; [|assumption].
+    apply (state_step pats pre lastb x); assumption.
+Qed.
+
+(* T02_flush_iff_boundary *)
+Theorem flush_iff_boundary :
+  flush_straddle_check = true -> flush_contains_check = true ->
+  forall pats ws1 w ws2,
+    Forall (fun p => fst p <> 0) pats -> Forall (fun x => x <> []) ws1 ->
+    (nth_error (flush_flags pats (ws1 ++ w :: ws2)) (length ws1) = Some true <->
+     occurs_ending_in pats (concat ws1) w).
+Proof.
+  intros Hs Hc pats ws1 w ws2 Hnz Hne. unfold flush_flags. rewrite flush_run_nth.
+  assert (Hst : state_of ([] ++ concat ws1) (fold_left (fun l x => snd (flush_step pats l x)) ws1 0)).
+  { apply state_after; [left; auto | exact Hne]. }
+  change ([] ++ concat ws1) with (concat ws1) in Hst. rewrite <- (flush_step_iff Hs Hc pats _ _ w Hst Hnz).
+  split; [intro H; inversion H; reflexivity | intros ->; reflexivity].
+Qed.
+
+(* an event of an event stream is complete when the empty line after it is:
+   LF LF, CR CR or CRLF CRLF *)
+Definition event_terminators : list str := [[10; 10]; [13; 13]; [13; 10; 13; 10]].
+
+(* T02_event_delivered *)
+Theorem event_delivered :
+  flush_straddle_check = true -> flush_contains_check = true ->
+  forall pats, In (10, 10) pats -> In (13, 13) pats -> In (13, 10) pats ->
+  Forall (fun p => fst p <> 0) pats ->
+  forall ws1 w ws2 t a c,
+    In t event_terminators -> Forall (fun x => x <> []) ws1 ->
+    concat ws1 ++ w = a ++ t ++ c -> (length c < length w)%nat ->
+    nth_error (flush_flags pats (ws1 ++ w :: ws2)) (length ws1) = Some true.
+Proof.
+  intros Hs Hc pats H1 H2 H3 Hnz ws1 w ws2 t a c Ht Hne Heq Hlen.
+  apply (flush_iff_boundary Hs Hc); [exact Hnz | exact Hne |].
+  simpl in Ht. destruct Ht as [<- | [<- | [<- | []]]].
+  - exists (10, 10), a, c. auto.
+  - exists (13, 13), a, c. auto.
+  - exists (13, 10), (a ++ [13; 10]), c. split; [exact H3|]. split; [|exact Hlen].
+    rewrite Heq, <- app_assoc. reflexivity.
+Qed.
+
+(* T02_chunk_delivered: the chunked writer issues three writes per chunk (size line,
+   data, CRLF); whatever was written before, the third one flushes *)
+Theorem chunk_delivered :
+  flush_contains_check = true ->
+  forall pats, In (13, 10) pats ->
+  forall ws1 d ws2,
+    nth_error (flush_flags pats (ws1 ++ chunk_writes d ++ ws2)) (length ws1 + 2) = Some true.
+Proof.
+  intros Hc pats Hin ws1 d ws2. unfold flush_flags, chunk_writes.
+  set (a := hex (N.of_nat (length d)) ++ crlf).
+  assert (E1 : @app str ws1 (@app str (@cons str a (@cons str d (@cons str crlf (@nil str)))) ws2) =
+               @app str (@app str ws1 (@cons str a (@cons str d (@nil str)))) (@cons str crlf ws2))
+    by (rewrite <- app_assoc; reflexivity).
+  assert (E2 : (length ws1 + 2)%nat = length (@app str ws1 (@cons str a (@cons str d (@nil str)))))
+    by (rewrite app_length; reflexivity).
+  change (list N) with str in *.
+  rewrite E1, E2, flush_run_nth. f_equal. unfold flush_step. simpl.
+  apply existsb_exists. exists (13, 10). split; [exact Hin|].
+  unfold flush_hit. rewrite Hc. simpl. apply orb_true_r.
+Qed.
+
+(* the quirk that makes the non-emptiness hypothesis necessary: an empty write
+   resets w.last, so a pattern that straddles it is missed *)
+Example empty_write_hides_boundary :
+  flush_run [(13, 10)] 0 [[13]; []; [10]] = [false; false; false] \/ flush_resets_last_on_empty = false.
+Proof.
+  destruct flush_resets_last_on_empty eqn:E; [left | right; reflexivity].
+  unfold flush_run, flush_step, flush_hit. rewrite E. simpl.
+  destruct flush_straddle_check, flush_contains_check; reflexivity.
+Qed.
